@@ -32,15 +32,19 @@ def vec6():
 
 def s_arith():
     return st.fixed_dictionaries({"kind": st.just("arith"), "A": st.sampled_from(VCLASSES), "B": st.sampled_from(VCLASSES),
-                                  "x": st.lists(vec6(), min_size=1, max_size=3), "y": st.lists(vec6(), min_size=1, max_size=3)})
+                                  # 1..3 values, and as many values as a vector has components (6: where rows and columns of a
+                                  # 6 x N array can be mistaken for each other) and one either side
+                                  "x": st.one_of(st.lists(vec6(), min_size=1, max_size=3), st.lists(vec6(), min_size=1, max_size=3), st.lists(vec6(), min_size=5, max_size=7)),
+                                  "y": st.one_of(st.lists(vec6(), min_size=1, max_size=3), st.lists(vec6(), min_size=1, max_size=3), st.lists(vec6(), min_size=5, max_size=7))})
 
 
 def gen_arith_cells(tier):
     base = [[1.0, -2.0, 3.0, 0.5, 4.0, -6.0], [2.0, 7.0, -1.0, 3.0, 0.25, 8.0], [-3.0, 1.0, 1.5, -2.0, 9.0, 0.125]]
+    base = base + [[0.5, 3.0, -2.0, 1.0, -1.5, 4.0], [6.0, -0.25, 2.5, -3.0, 1.0, 0.75], [-1.0, 5.0, 0.5, 2.0, -4.0, 1.25], [2.5, -3.5, 1.5, 0.25, 6.0, -2.0]]
     for A in VCLASSES:
         for B in VCLASSES:
-            for m in (1, 2, 3):
-                for n in (1, 2, 3):
+            for m in (1, 2, 3, 6, 7):
+                for n in (1, 2, 3, 6, 7):
                     yield {"kind": "arith", "A": A, "B": B, "x": base[:m], "y": [list(reversed(v)) for v in base[:n]]}
 
 
@@ -64,7 +68,7 @@ def s_cross():
 
 def s_inertia():
     return st.fixed_dictionaries({
-        "kind": st.just("inertia"), "mass": gens.logmag(-3, 4), "c": gens.trans(3, -3, 2),
+        "kind": st.just("inertia"), "mass": st.one_of(gens.logmag(-3, 4), gens.logmag(-3, 4), gens.logmag(-18, -3), gens.logmag(4, 9)), "c": gens.trans(3, -3, 2),
         "A": st.lists(gens.fl(-3, 3), min_size=9, max_size=9), "eps": gens.logmag(-3, 1),
         "mass2": gens.logmag(-3, 4), "c2": gens.trans(3, -3, 2), "B": st.lists(gens.fl(-3, 3), min_size=9, max_size=9),
         "x": vec6(), "noI": st.booleans(),
@@ -254,6 +258,15 @@ def _inertia(case):
     J = np.asarray(SI.A, dtype=float)
     if not c.eq("value", J, want, 1e-9, sc):
         return c.out
+    if J.shape == (6, 6):
+        # the four blocks live on different scales (m, m|c|, I + m|c|^2): each is judged relative to its own size, so that a
+        # light body far from the origin (or a heavy one) does not hide a wrong block behind the largest entry
+        for nm_, sl in (("mass", (slice(0, 3), slice(0, 3))), ("first_moment", (slice(3, 6), slice(0, 3))), ("first_moment_T", (slice(0, 3), slice(3, 6))),
+                        ("rotational", (slice(3, 6), slice(3, 6)))):
+            wb = want[sl]
+            sb = float(np.max(np.abs(wb)))
+            if sb > 0:
+                c.eq("value/block/" + nm_, J[sl], wb, 1e-9, sb)
     c.eq("symmetric", J, J.T, 1e-9, sc)
     # sum of two bodies
     I3b = _spd(case["B"], case["eps"])
